@@ -2,6 +2,7 @@
 // stdin: one case (val) per line; stdout: one observation (val) per line.
 mod fam_be;
 mod fam_fe;
+mod fam_proxy;
 mod fam_sess;
 mod fam_valid;
 mod peer;
@@ -22,6 +23,10 @@ fn run_case(c: &Val) -> Val {
         "valid" => fam_valid::run(args),
         "be" => fam_be::run(args),
         "fe" => fam_fe::run(args),
+        "fsrv" => fam_proxy::run_fsrv(args),
+        "proxy" => fam_proxy::run_proxy(args),
+        "psess" => fam_proxy::run_psess(args),
+        "tx" => fam_fe::run_tx(args),
         "sess" => fam_sess::run(args),
         "iovs" => {
             let lens: Vec<usize> = args[0].as_l().unwrap_or(&[]).iter().map(|v| v.as_u64().unwrap_or(0) as usize).collect();
